@@ -76,6 +76,35 @@ def field_update_key(prog, b, o):
     return None
 
 
+_REPLAY_CACHE = {}
+
+
+def replay_obligations(env, b, max_paths=800):
+    """{(block, kind): True iff the obligation was proved each time a replayed path reached it}; empty when the replay was cut off"""
+    from .. import grammar
+    key = (id(env.prog), b.key)
+    if key in _REPLAY_CACHE:
+        return _REPLAY_CACHE[key]
+    out = {}
+    if sum(1 for bl in b.blocks if not bl["cleanup"]) <= 400:
+        ex = grammar.Extractor(env, b.key, "r", max_paths=max_paths)
+        ex.it.obligations = []
+        try:
+            ex.run()
+        except RecursionError:
+            ex.truncated = True
+        obs = ex.it.obligations or []
+        ex.it.obligations = None
+        if not ex.truncated:
+            for o in obs:
+                if o.body != b.key:
+                    continue
+                k = (o.bi, o.kind)
+                out[k] = out.get(k, True) and bool(o.proved)
+    _REPLAY_CACHE[key] = out
+    return out
+
+
 def panic_sites(env, rep, rule, entries, label):
     """R1 of C03 (and C19 R4, C20 R1): every panic-capable site in the functions reachable from
     `entries` is discharged under the function's entry state, or is a reviewed site / known finding."""
@@ -89,6 +118,16 @@ def panic_sites(env, rep, rule, entries, label):
         rep.fn(b.key)
         it = ctx.interp(b.key)
         obs = it.walk()
+        if any(not o.proved for o in obs):
+            # second chance: the fixpoint joins the states of all paths before a site; a fact that holds on each path for a
+            # different reason (a guard folded into a bool by `&&`, a length known through Some(..) == first()) is lost in the
+            # join.  Replay the function path by path (same transfer functions, no joins, loops from the fixpoint's head state)
+            # and accept a site that is proved on every path that reaches it.
+            second = replay_obligations(env, b)
+            for o in obs:
+                if not o.proved and second.get((o.bi, o.kind)) is True:
+                    o.proved = True
+                    o.detail = (o.detail or "") + " ; proved on every replayed path to the site"
         for o in obs:
             n_sites += 1
             key = "%s|%s" % (prog.bodies[o.body].pretty, o.what)
